@@ -245,6 +245,12 @@ def _longest_first(ctx, f, arg, depth=0):
             seen.add(c.key)
             here = [n for n in iter_own_nodes(c.node) if isinstance(n, ast.Call) and ast.unparse(n.func) == "sorted"]
             srt += here
+            # the value the getter files in the cache is in plain sight and it is not a sort: decided, not unknown
+            stored = [k.value for n in iter_own_nodes(c.node) if isinstance(n, ast.Call) and ast.unparse(n.func).endswith("_add_to_cache")
+                      for k in n.keywords if k.arg == "value"]
+            if stored and not here and all(isinstance(v_, (ast.List, ast.ListComp, ast.Tuple, ast.Call)) and not (
+                    isinstance(v_, ast.Call) and not ast.unparse(v_.func) in ("list", "tuple", "set")) for v_ in stored):
+                return False
             if not here and d_ < 2:
                 for s2 in ctx.cg.sites.get(c.key, ()):
                     work += [(c2, d_ + 1) for c2 in s2.callees if c2.module is c.module]
